@@ -404,6 +404,7 @@ def combinator_summaries(P):
     P[r'<.* as Iterator>::any'] = _quantifier(True, True)
     P[r'<.* as Iterator>::all'] = _quantifier(False, False)
     P[r'(?:Vec|HashSet)::retain'] = _retain
+    P[r'Vec::dedup_by'] = _dedup_by
 
 
 @cps
@@ -473,6 +474,23 @@ def _retain(se, env, pc, vals, cont):
     loop(0, [], env, pc)
 
 
+def _dedup_by(se, env, pc, vals, cont):
+    """Vec::dedup_by(same_bucket): same_bucket(candidate, last kept) == true removes the candidate."""
+    coll, clo = vals[0], vals[1]
+    items = list(the_list(se, env, coll))
+    def loop(i, kept, env, pc):
+        if i == len(items):
+            e = dict(env); se.store(e, coll, kept); return cont((), e, pc)
+        if not kept: return loop(i + 1, [items[i]], env, pc)
+        se.ncell = getattr(se, 'ncell', 0) + 2
+        ca, cb = '$ddp%d' % se.ncell, '$ddp%d' % (se.ncell - 1); e = dict(env); e[ca] = items[i]; e[cb] = kept[-1]
+        def after(r, e2, p2):
+            _fork_bool(se, r, lambda extra: loop(i + 1, kept, e2, p2 + extra), lambda extra: loop(i + 1, kept + [items[i]], e2, p2 + extra))
+        apply_closure(se, e, pc, clo, [Ref(ca), Ref(cb)], after)
+    loop(0, [], env, pc)
+_dedup_by.cps = True
+
+
 def _sort_by_key_late(se, env, pc, vals, cont): return sort_by_key(se, env, pc, vals, cont)
 _sort_by_key_late.cps = True
 
@@ -511,6 +529,7 @@ def std_summaries():
     P = {}
     S['$patterns'] = P
     int_summaries(P)
+    P[r'Vec::append'] = lambda se, env, pc, a, b: (se.store(env, a, the_list(se, env, a) + the_list(se, env, b)), se.store(env, b, []), one(env, ()))[2]
     P[r'(?:core|std)::slice::<impl \[.*\]>::sort_by_key'] = _sort_by_key_late
     P[r'<\[Vec<.*>; (\d+)\] as Default>::default'] = lambda se, env, pc: one(env, [[] for _ in range(7)])
     P[r'<.* as Iterator>::map'] = it_map
